@@ -265,7 +265,7 @@ func (h *SrvH) SendOn(f *fakeModify, m *spb.ModifyRequest) MsgOutcome {
 		return MsgOutcome{Ended: true, Err: err}
 	case <-time.After(stepTO()):
 		noteIfWedged()
-		return MsgOutcome{Hang: true}
+		return hungOutcome()
 	}
 	return h.await(f)
 }
@@ -298,6 +298,7 @@ func (h *SrvH) await(f *fakeModify) MsgOutcome {
 			if time.Now().After(deadline) {
 				noteIfWedged()
 				o.Hang = true
+				wdFired.Add(1)
 				break
 			}
 			time.Sleep(20 * time.Microsecond)
@@ -308,10 +309,12 @@ func (h *SrvH) await(f *fakeModify) MsgOutcome {
 	case <-time.After(stepTO()):
 		noteIfWedged()
 		o.Hang = true
+		wdFired.Add(1)
 	}
 	if !waitPump(f.gid) {
 		noteIfWedged()
 		o.Hang = true
+		wdFired.Add(1)
 	}
 	o.Resps = f.take()
 	return o
@@ -330,7 +333,7 @@ func (h *SrvH) Send(c int, m *spb.ModifyRequest) MsgOutcome {
 		return MsgOutcome{Ended: true, Err: err}
 	case <-time.After(stepTO()):
 		noteIfWedged()
-		return MsgOutcome{Hang: true}
+		return hungOutcome()
 	}
 	return h.await(f)
 }
@@ -354,7 +357,7 @@ func (h *SrvH) Close(c int, mode string) MsgOutcome {
 		case f.in <- nil:
 		case <-time.After(stepTO()):
 			noteIfWedged()
-			return MsgOutcome{Hang: true}
+			return hungOutcome()
 		}
 	default:
 		close(f.in)
@@ -367,10 +370,12 @@ func (h *SrvH) Close(c int, mode string) MsgOutcome {
 	case <-time.After(stepTO()):
 		noteIfWedged()
 		o.Hang = true
+		wdFired.Add(1)
 	}
 	if !waitPump(f.gid) {
 		noteIfWedged()
 		o.Hang = true
+		wdFired.Add(1)
 	}
 	o.Resps = f.take()
 	return o
@@ -412,7 +417,7 @@ func (h *SrvH) CutMid(c int, m *spb.ModifyRequest, j int, mode string) MsgOutcom
 	case f.in <- m:
 	case <-time.After(stepTO()):
 		noteIfWedged()
-		return MsgOutcome{Hang: true}
+		return hungOutcome()
 	}
 	o := MsgOutcome{}
 	select {
@@ -425,7 +430,7 @@ func (h *SrvH) CutMid(c int, m *spb.ModifyRequest, j int, mode string) MsgOutcom
 		case f.in <- nil:
 		case <-time.After(stepTO()):
 			noteIfWedged()
-			return MsgOutcome{Hang: true}
+			return hungOutcome()
 		}
 		select {
 		case err := <-f.done:
@@ -434,16 +439,19 @@ func (h *SrvH) CutMid(c int, m *spb.ModifyRequest, j int, mode string) MsgOutcom
 		case <-time.After(stepTO()):
 			noteIfWedged()
 			o.Hang = true
+			wdFired.Add(1)
 		}
 	case <-time.After(stepTO()):
 		noteIfWedged()
 		o.Hang = true
+		wdFired.Add(1)
 	}
 	// the receive loop may still be programming the operation it had in hand
 	for dl := time.Now().Add(stepTO()); !readerSettled(f.gid); {
 		if time.Now().After(dl) {
 			noteIfWedged()
 			o.Hang = true
+			wdFired.Add(1)
 			break
 		}
 		time.Sleep(50 * time.Microsecond)
@@ -720,4 +728,10 @@ func (h *SrvH) SendLite(c int, m *spb.ModifyRequest) (*spb.ModifyResponse, bool)
 		}
 		runtime.Gosched()
 	}
+}
+
+// hungOutcome: a step of the server harness ran into its wall-clock limit.
+func hungOutcome() MsgOutcome {
+	wdFired.Add(1)
+	return MsgOutcome{Hang: true}
 }
